@@ -165,4 +165,8 @@ theorem gen_fast_convert_array_crt : type_of% @HC.gr_fast_convert_array_crt := @
     `fast_convert_array` on the fields of the model's `qToBsk` (`gr_convF`) -/
 theorem gen_fast_floor_eq : type_of% @HC.gr_fast_floor_eq := @HC.gr_fast_floor_eq
 
+/-- END TO END (BEHZ small Montgomery reduction): generated `sm_mrq` composed with `smMrq_spec` and `smMrq_scalar`: position `i·n + j` of ANY destination
+    buffer receives `((Y_j + q·r_j)/m̃) mod b_i`, `r_j` the centred representative of `−Y_j·q⁻¹ mod m̃`, and `m̃ ∣ Y_j + q·r_j` -/
+theorem gen_sm_mrq_montgomery : type_of% @HC.gr_sm_mrq_montgomery := @HC.gr_sm_mrq_montgomery
+
 end HC.C10
